@@ -101,13 +101,14 @@ impl<'a> Ctx<'a> {
         self.made.push(mv);
         let b = &mut self.board;
         let valid = g!("is_valid", b.is_valid());
+        let chk = g!("is_in_check", json!([b.is_in_check(&Color::WHITE), b.is_in_check(&Color::BLACK), b.is_current_in_check()]));
         let s = g!("snapshot", snap(b));
         // the move record as the API exposes it (MoveStructs): moved piece, captured piece, promotion piece, flags
         let ms = inkayaku_board::MoveStructs::from(mv);
         let desc = json!({"moved": ms.from_piece.fen.to_string(), "captured": ms.to_piece.map_or("-".to_string(), |p| p.fen.to_string()),
                           "promo": ms.promote_to.map_or("-".to_string(), |p| p.fen.to_string()), "from": ms.from_square.fen, "to": ms.to_square.fen,
                           "castle": mv.is_castle_move(), "ep": mv.is_en_passant_attack(), "attack": mv.is_attack(), "reset": mv.is_halfmove_reset()});
-        self.out.emit(&json!({"c": id, "ev": "make", "uci": mv.to_uci_string(), "d": limbs(d), "pd": limbs(pd), "valid": valid, "mv": desc, "snap": s}));
+        self.out.emit(&json!({"c": id, "ev": "make", "uci": mv.to_uci_string(), "d": limbs(d), "pd": limbs(pd), "valid": valid, "chk": chk, "mv": desc, "snap": s}));
         Ok(())
     }
 
@@ -116,8 +117,10 @@ impl<'a> Ctx<'a> {
         if let Some(mv) = self.made.pop() {
             let b = &mut self.board;
             g!("unmake", b.unmake(mv));
+            // the same queries again on the restored position (whatever the board remembered about the successor must be gone)
+            let chk = g!("is_in_check", json!([b.is_in_check(&Color::WHITE), b.is_in_check(&Color::BLACK), b.is_current_in_check()]));
             let s = g!("snapshot", snap(b));
-            self.out.emit(&json!({"c": id, "ev": "unmake", "snap": s}));
+            self.out.emit(&json!({"c": id, "ev": "unmake", "chk": chk, "snap": s}));
         }
         Ok(())
     }
